@@ -7,6 +7,7 @@ import (
 	"os"
 	"strings"
 	"unicode/utf8"
+	"unsafe"
 
 	"golang.org/x/tools/go/ssa"
 
@@ -27,7 +28,7 @@ type goPanic struct {
 }
 
 type fnInfo struct {
-	index map[ssa.Value]int
+	index map[uintptr]int // slot of a parameter / free variable / register, keyed by the value's address
 	n     int
 }
 
@@ -63,6 +64,7 @@ type Interp struct {
 
 	fnInfos  map[*ssa.Function]*fnInfo
 	intrCach map[*ssa.Function]Intrinsic
+	initSnap map[*ssa.Package]map[*ssa.Global]*Value
 	built    map[*ssa.Package]bool
 	FnSeen   map[string]int
 
@@ -81,7 +83,7 @@ type Interp struct {
 
 func NewInterp(prog *ssa.Program, mainPkg *ssa.Package, st *term.Store, sv *solve.Solver) *Interp {
 	in := &Interp{Prog: prog, MainPkg: mainPkg, T: st, S: sv,
-		fnInfos: map[*ssa.Function]*fnInfo{}, intrCach: map[*ssa.Function]Intrinsic{},
+		fnInfos: map[*ssa.Function]*fnInfo{}, intrCach: map[*ssa.Function]Intrinsic{}, initSnap: map[*ssa.Package]map[*ssa.Global]*Value{},
 		built: map[*ssa.Package]bool{}, FnSeen: map[string]int{}, MaxSteps: 50_000_000,
 		InterpPkgs: map[string]bool{}}
 	for _, p := range []string{
@@ -99,6 +101,17 @@ func NewInterp(prog *ssa.Program, mainPkg *ssa.Package, st *term.Store, sv *solv
 // resetHooks reset native-side state (stand-in engine ledger, counters) at the start of every run.
 var resetHooks []func()
 
+// StepProfile (ZSX_STEP_PROFILE=1): SSA steps per function, for finding hot loops.
+var stepProfile map[string]int64
+
+func init() {
+	if os.Getenv("ZSX_STEP_PROFILE") != "" {
+		stepProfile = map[string]int64{}
+	}
+}
+
+func StepProfile() map[string]int64 { return stepProfile }
+
 func (in *Interp) resetRun() {
 	for _, h := range resetHooks {
 		h()
@@ -115,9 +128,9 @@ func (in *Interp) info(fn *ssa.Function) *fnInfo {
 	if fi, ok := in.fnInfos[fn]; ok {
 		return fi
 	}
-	fi := &fnInfo{index: map[ssa.Value]int{}}
+	fi := &fnInfo{index: map[uintptr]int{}}
 	add := func(v ssa.Value) {
-		fi.index[v] = fi.n
+		fi.index[valKey(v)] = fi.n
 		fi.n++
 	}
 	for _, p := range fn.Params {
@@ -150,14 +163,17 @@ func (fr *frame) get(v ssa.Value) Value {
 	case nil:
 		return nil
 	}
-	i, ok := fr.info.index[v]
+	i, ok := fr.info.index[valKey(v)]
 	if !ok {
 		panic(fmt.Sprintf("get: no slot for %T %v in %s", v, v.Name(), fr.fn))
 	}
 	return fr.locals[i]
 }
 
-func (fr *frame) set(v ssa.Value, x Value) { fr.locals[fr.info.index[v]] = x }
+func (fr *frame) set(v ssa.Value, x Value) { fr.locals[fr.info.index[valKey(v)]] = x }
+
+// valKey is the address held in the interface (every ssa.Value is a pointer; the SSA program keeps them alive).
+func valKey(v ssa.Value) uintptr { return (*[2]uintptr)(unsafe.Pointer(&v))[1] }
 
 func (in *Interp) global(g *ssa.Global) *Value {
 	if p, ok := in.globals[g]; ok {
@@ -172,6 +188,7 @@ func (in *Interp) global(g *ssa.Global) *Value {
 	in.globals[g] = p
 	if g.Pkg != nil && in.InterpPkgs[g.Pkg.Pkg.Path()] {
 		in.ensureInit(g.Pkg)
+		return in.globals[g] // (a restored initialisation snapshot may have replaced the cell)
 	}
 	return p
 }
@@ -187,9 +204,40 @@ func (in *Interp) ensureInit(p *ssa.Package) {
 	if initFn == nil {
 		return
 	}
+	pure := pureInitPkgs[p.Pkg.Path()]
+	if pure {
+		if snap, ok := in.initSnap[p]; ok {
+			// table-only package initialised earlier in this process: its (never written) globals are shared
+			for g, cell := range snap {
+				in.globals[g] = cell
+			}
+			return
+		}
+	}
 	in.inInit++
 	defer func() { in.inInit-- }()
 	in.callFn(initFn, nil, nil, nil)
+	if pure {
+		snap := map[*ssa.Global]*Value{}
+		for g, cell := range in.globals {
+			if g.Pkg == p {
+				snap[g] = cell
+			}
+		}
+		in.initSnap[p] = snap
+	}
+}
+
+// pureInitPkgs: packages whose initialisers only fill lookup tables that are never written afterwards and
+// that depend on nothing symbolic. Their initialiser is interpreted once per process (it costs 50 k - 3 M
+// steps) and the resulting globals are shared by all later paths.
+var pureInitPkgs = map[string]bool{
+	"unicode":                           true,
+	"unicode/utf8":                      true,
+	"strconv":                           true,
+	"math":                              true,
+	"math/bits":                         true,
+	"github.com/bits-and-blooms/bitset": true,
 }
 
 func (in *Interp) buildPkg(p *ssa.Package) {
@@ -304,10 +352,10 @@ func (in *Interp) callFn(fn *ssa.Function, args []Value, env []Value, caller *fr
 	fi := in.info(fn)
 	fr := &frame{in: in, fn: fn, caller: caller, info: fi, locals: make([]Value, fi.n)}
 	for i, p := range fn.Params {
-		fr.locals[fi.index[p]] = args[i]
+		fr.locals[fi.index[valKey(p)]] = args[i]
 	}
 	for i, fv := range fn.FreeVars {
-		fr.locals[fi.index[fv]] = env[i]
+		fr.locals[fi.index[valKey(fv)]] = env[i]
 	}
 	fr.block = fn.Blocks[0]
 	fr.depth = in.depth
@@ -350,6 +398,9 @@ func (in *Interp) runFrame(fr *frame) {
 		jumped := false
 		for _, instr := range blk.Instrs {
 			in.steps++
+			if stepProfile != nil {
+				stepProfile[fr.fn.String()]++
+			}
 			if in.steps > in.MaxSteps {
 				panic(abortPath{"budget", "step budget exhausted"})
 			}
